@@ -275,8 +275,13 @@ fn compare(a: &Act, before: &Snap, after: &Snap, m: &mut RefSubject, model_befor
 
 fn key_of(snap: &Snap, limit: u64) -> (Vec<(String, Vec<(u32, Vec<u8>, u64, Option<u16>)>)>, u64) {
     // sequence dropped: nothing reads it except the +1, which is checked on every transition.
-    // Entries without observers dropped: whether an entry outlives its last observer is not fixed by the
-    // properties, and nothing that is checked depends on it (a never-registered path is tracked by the model).
+    // Entries without observers are KEPT in the deduplication key (over-fine is safe, over-coarse hides states).
+    (snap.iter().map(|(p, (_, o))| (p.clone(), o.clone())).collect(), limit)
+}
+
+/// Projection that is only *counted*, for the cross-engine guard: whether an entry outlives its last observer is
+/// not fixed by the properties, so the comparable state count drops observer-less entries (as the model does).
+fn key_projected(snap: &Snap, limit: u64) -> (Vec<(String, Vec<(u32, Vec<u8>, u64, Option<u16>)>)>, u64) {
     (snap.iter().filter(|(_, (_, o))| !o.is_empty()).map(|(p, (_, o))| (p.clone(), o.clone())).collect(), limit)
 }
 
@@ -290,7 +295,7 @@ fn bfs_limit(prop: Prop, ctx: &Ctx, rep: &mut Report, limit: u8, with_setlimit: 
     let pname = if prop == Prop::C14 { "C14" } else { "C15" };
     let name = format!("bfs-limit{}{}{}", limit, if with_setlimit { "-setlimit" } else { "" }, match mode { 1 => "-3endpoints-3tokens-1path", 2 => "-2endpoints-1token-3paths", _ => "" });
     let desc = format!(
-        "closed BFS of the real Subject with unacknowledged limit {}: {} actions ({}; notification rounds on the observed path(s) + 1 never-registered path x 2 message ids x CON/NON, acknowledgements from each endpoint + a stranger x 2 ids{}); canonical key = per path with observers: the ordered observers (endpoint, token, count, pending id); sequence and observer-less entries excluded",
+        "closed BFS of the real Subject with unacknowledged limit {}: {} actions ({}; notification rounds on the observed path(s) + 1 never-registered path x 2 message ids x CON/NON, acknowledgements from each endpoint + a stranger x 2 ids{}); canonical key = per path the ordered observers (endpoint, token, count, pending id), sequence excluded",
         limit,
         acts.len(),
         match mode { 1 => "register/deregister x 3 endpoints x 3 tokens x 1 path", 2 => "register/deregister x 2 endpoints x 1 token x 3 paths", _ => "register/deregister x 2 endpoints x 2 tokens x 2 paths" },
@@ -346,10 +351,12 @@ fn bfs_limit(prop: Prop, ctx: &Ctx, rep: &mut Report, limit: u8, with_setlimit: 
                 }
             },
             key: &|st: &St| key_of(&snapshot(&st.s), st.s.verif_unacknowledged_limit()),
+            project: Some(&|st: &St| key_projected(&snapshot(&st.s), st.s.verif_unacknowledged_limit())),
             label: &|a| format!("{:?}", acts[a]),
         },
     );
     rep.note(&format!("{}_states", name), st.states);
+    rep.note(&format!("{}_projected_states", name), st.projected_states);
     rep.note(&format!("{}_transitions", name), st.transitions);
     rep.note(&format!("{}_closed", name), st.closed);
     rep.note(&format!("{}_max_depth", name), st.max_depth);
